@@ -204,6 +204,7 @@ def run(ctx):
     out.rule = ('inquiry value drawn first; field of 0-4 elements mixing aimed rule trees, attribute dictionaries (with '
                 'missing keys, junk entries, empty), raising rules; a matching element placed at a random position; '
                 'non-trivial = >=2 elements or an attribute dictionary; distinct by protocol line')
+    out.rule += '; a seventh of the dictionary values get one more attribute whose name is not a string (an integer, a tuple, None, a float, a frozenset)'
     return out
 
 
